@@ -158,6 +158,11 @@ def pool():
     P['sky-annulus-ellipse'] = R.EllipseAnnulusSkyRegion(c, 2 * u.arcsec, 5 * u.arcsec, 1 * u.arcsec, 3 * u.arcsec, angle=10 * u.deg,
                                                          meta=M(), visual=V())
     P['sky-compound'] = R.CircleSkyRegion(c, 3 * u.arcsec, meta=M()) & R.CircleSkyRegion(c, 5 * u.arcsec)
+    # regions as a DS9 parse hands them out (default_style='ds9'), with the colour DS9 calls green
+    from regions import Regions as _Regs
+    parsed = _Regs.parse('image\ncircle(11,21,5) # color=green width=2 text={from ds9}\nannulus(30,30,4,8) # color=green\n', format='ds9')
+    P['ds9-parsed-circle'] = parsed[0]
+    P['ds9-parsed-annulus'] = parsed[1]
     # CRTF spectral / polarisation metadata: containers whose ELEMENT TYPES must survive serialisation too
     P['sky-circle-spectral'] = R.CircleSkyRegion(c, 3.5 * u.arcsec, meta=RegionMeta({'label': 'lab', 'range': [1.42 * u.GHz, 1.43 * u.GHz],
                                                                                  'corr': ['I', 'Q'], 'restfreq': '1.42GHz', 'veltype': 'RADIO',
@@ -196,6 +201,7 @@ def operations():
     ops['repr-str'] = lambda r, e: (repr(r), str(r))
     ops['as_artist'] = lambda r, e: type(r.as_artist(origin=(1, 2))).__name__ if _is_pix(r) else None
     ops['mask-apply'] = lambda r, e: _mask_apply(r, e) if _is_pix(r) else None
+    ops['parse-foreign-fits-table'] = lambda r, e: fp(Regions.parse(e['fits_table'], format='fits'))
     ops['mask-apply-foreign-layout'] = lambda r, e: _mask_apply_layouts(r, e) if _is_pix(r) else None
     for fmt, kws in (('ds9', [{}, {'precision': 3}]), ('crtf', [{}, {'coordsys': 'galactic', 'fmt': '.3f', 'radunit': 'arcsec'}]),
                      ('fits', [{}])):
@@ -267,6 +273,13 @@ def frame_case(kind):
                    'sc': SkyCoord(10.0005, 20.001, unit='deg'), 'scs': SkyCoord([10.0, 10.001], [20.0, 20.002], unit='deg'),
                    'image': np.arange(60 * 50, dtype=float).reshape(60, 50), 'other_pix': P['line'] if kind != 'line' else P['circle'],
                    'other_sky': P['sky-point'] if kind != 'sky-point' else P['sky-circle']}
+            from astropy.table import QTable
+            tb = QTable()
+            tb['SHAPE'] = ['CIRCLE', '!Circle', 'Box']
+            tb['X'] = [[10.0, 0.0], [12.0, 0.0], [14.0, 0.0]] * u.pix
+            tb['Y'] = [[20.0, 0.0], [22.0, 0.0], [24.0, 0.0]] * u.pix
+            tb['R'] = [[3.0, 0.0], [4.0, 0.0], [5.0, 6.0]] * u.pix
+            env['fits_table'] = tb
             base_img = np.arange(60 * 50, dtype=float).reshape(60, 50)
             env['image_be'] = base_img.astype('>f8')
             env['image_f'] = np.asfortranarray(base_img)
@@ -276,7 +289,7 @@ def frame_case(kind):
             watch = {'region': r, 'other_pix': env['other_pix'], 'other_sky': env['other_sky'], 'pc': env['pc'], 'pcs': env['pcs'],
                      'image': env['image'], 'wcs_cd': env['wcs'].wcs.cd.copy(), 'wcs_crval': env['wcs'].wcs.crval.copy(),
                      'image_be': env['image_be'], 'image_f': env['image_f'], 'image_strided': env['image_strided'],
-                     'image_strided_parent': env['image_strided'].base}
+                     'image_strided_parent': env['image_strided'].base, 'fits_table': env['fits_table']}
             before = {k: fp(v) for k, v in watch.items()}
             before_ids = {k: ids(v) for k, v in watch.items()}
             mod0 = module_state()
